@@ -299,7 +299,13 @@ func (ev *evaluator) binary(x *EBin) Val {
 	}
 	a := ev.eval(x.X)
 	b := ev.eval(x.Y)
-	a, b = ev.unify(a, b)
+	if x.Op == "<<" || x.Op == ">>" {
+		if a.konst != nil && a.t == nil && !(b.konst != nil && b.t == nil) {
+			ev.fail("shift of an untyped constant by a variable: give the left operand a type, e.g. uint16(1) << n")
+		}
+	} else {
+		a, b = ev.unify(a, b)
+	}
 	if a.konst != nil && a.t == nil {
 		// both untyped constants
 		if tk, ok := cmpTokens[x.Op]; ok {
@@ -416,13 +422,13 @@ func (ev *evaluator) seqEq(a, b Val) *T {
 	c := ev.c()
 	at, bt := ev.term(a), ev.term(b)
 	et := a.typ.Underlying().(*types.Slice).Elem()
-	es := c.sortOf(et)
+	_ = c.sortOf(et)
 	qcounter++
 	k := atom(fmt.Sprintf("k!%d", qcounter), c.intSort())
 	intT := types.Typ[types.Int]
-	arr := c.arrOf(ev.st, es)
-	ea := mkSelect(mkSelect(arr, c.slRef(at)), c.arith(token.ADD, c.slOff(at), k, intT, nil))
-	eb := mkSelect(mkSelect(arr, c.slRef(bt)), c.arith(token.ADD, c.slOff(bt), k, intT, nil))
+	arr := c.arrOf(ev.st, et)
+	ea := mkSelect(mkSelect(arr, c.slRef(at)), c.ix(c.slOff(at), k))
+	eb := mkSelect(mkSelect(arr, c.slRef(bt)), c.ix(c.slOff(bt), k))
 	var elemEq *T
 	if _, isf := isFloat(et); isf {
 		elemEq = mkEq(ea, eb)
@@ -504,9 +510,8 @@ func (ev *evaluator) index(x *EIndex) Val {
 	it := ev.toInt(i)
 	switch u := v.typ.Underlying().(type) {
 	case *types.Slice:
-		es := c.sortOf(u.Elem())
-		arr := mkSelect(c.arrOf(ev.st, es), c.slRef(v.t))
-		return Val{t: mkSelect(arr, c.arith(token.ADD, c.slOff(v.t), it, types.Typ[types.Int], nil)), typ: u.Elem()}
+		arr := mkSelect(c.arrOf(ev.st, u.Elem()), c.slRef(v.t))
+		return Val{t: mkSelect(arr, c.ix(c.slOff(v.t), it)), typ: u.Elem()}
 	case *types.Array:
 		return Val{t: mkSelect(v.t, it), typ: u.Elem()}
 	case *types.Basic:
@@ -678,6 +683,24 @@ func (ev *evaluator) call(x *ECall) Val {
 		a := ev.eval(x.Args[0])
 		t := ev.resolveType(exprString(x.Args[1]))
 		return Val{t: mkSel(c.ifaceCtor(t), 0, a.t), typ: t}
+	case "apply":
+		// apply(f, args...): application of a function-typed value, modelled as a pure function
+		f := ev.eval(x.Args[0])
+		sig, ok := f.typ.Underlying().(*types.Signature)
+		if !ok || sig.Results().Len() != 1 {
+			ev.fail("apply needs a function value with one result")
+		}
+		sorts := []string{"Int"}
+		ts := []*T{ev.term(f)}
+		for i, a := range x.Args[1:] {
+			v := ev.typed(ev.eval(a), sig.Params().At(i).Type())
+			sorts = append(sorts, v.t.sort)
+			ts = append(ts, v.t)
+		}
+		rt := sig.Results().At(0).Type()
+		name := fmt.Sprintf("applyfn_%s_%d", sanitize(typeKey(sig)), 0)
+		c.d.fun(name, sorts, c.sortOf(rt))
+		return Val{t: app(name, c.sortOf(rt), ts...), typ: rt}
 	case "bits32":
 		a := ev.eval(x.Args[0])
 		return Val{t: ev.x.floatBits(a.t, 32), typ: types.Typ[types.Uint32]}
